@@ -35,6 +35,9 @@ UNIVERSE = [
     ('dsa1024-0', ('Dave (work) <dave@example.org>',), (('ecdh-p256-0', 0x0C),)),
     # names and a comment made of hexadecimal digits only (they look like key ids to anything that guesses)
     ('ecdsa-p521-0', ('Abe Dee (cafe) <abe@example.org>', 'Ada'), ()),
+    # names and comments that differ only by spaces
+    ('ecdsa-k256-0', ('Ann Lee (x y) <annlee@example.org>',), ()),
+    ('rsa1024-0', ('AnnLee (xy)',), ()),
 ]
 FORMS = ['object', 'binary', 'armored', 'file', 'list', 'tuple', 'dup-list', 'dup-args']
 
@@ -114,6 +117,11 @@ def apply(state, op):
     if op[0] == 'load':
         _, i, half, form = op
         if any(k[0] == i for k in state.dropped):
+            if form == 'object' and (i, half) in state.objects and (i, half) in state.dropped:
+                # the very object whose subkey was unloaded is loaded again: load() reports the subkey as loaded, so it is
+                state.kr.load(state.objects[(i, half)])
+                state.dropped.pop((i, half))
+                return
             state.ops.pop()
             return 'skipped'          # keeps the model exact: a certificate with an individually unloaded subkey stays the only instance of itself
         blob = U.blobs[(i, half)]
@@ -271,8 +279,28 @@ def check_selectors(state):
         _SIGS['sig1'] = bytes(k1.sign(b'by key 1'))
         pub0 = keypool.pgpy_key(U.blobs[(0, 'pub')])
         _SIGS['msg'] = bytes(list(pub0.subkeys.values())[0].encrypt(pgpy.PGPMessage.new(b'to key 0')))
+        # a signature that names its issuer by the Issuer Fingerprint subpacket only (RFC 4880 does not require an Issuer subpacket)
+        sec1 = keypool.ref_secret(UNIVERSE[1][0])
+        _SIGS['sigfp'] = wire.build_packet(2, rsig.sign(sec1, 0x00, 8, ('doc', b'fingerprint only'), keypool.std_hashed(1600000000, sec1.pub.fingerprint), b''))
+        # a message for two recipients (keys 0 and 6)
+        pub6 = keypool.pgpy_key(U.blobs[(6, 'pub')])
+        from pgpy.constants import SymmetricKeyAlgorithm
+        sk = SymmetricKeyAlgorithm.AES128.gen_key()
+        e = list(pub0.subkeys.values())[0].encrypt(pgpy.PGPMessage.new(b'to keys 0 and 6'), cipher=SymmetricKeyAlgorithm.AES128, sessionkey=sk)
+        _SIGS['msg2'] = bytes(list(pub6.subkeys.values())[0].encrypt(e, cipher=SymmetricKeyAlgorithm.AES128, sessionkey=sk))
     loaded_idx = {i for i, _ in state.loaded}
-    for name, idx, issuer_fp in (('sig', 4, U.info[4]['subs'][0]), ('sig1', 1, U.info[1]['fp']), ('msg', 0, U.info[0]['subs'][0])):
+    # several recipients: when the private half of one of them is loaded, the selected key is a private component of a recipient
+    # (a public key of another recipient can neither decrypt nor have issued the message)
+    sec_rcpt = [i for i in (0, 6) if [i, 'sec'] in state.loaded and not any(k_[0] == i for k_ in state.dropped)]
+    if sec_rcpt and not any(k_[0] in (0, 6) for k_ in state.dropped):
+        try:
+            with state.kr.key(pgpy.PGPMessage.from_blob(_SIGS['msg2'])) as k:
+                ok = (not k.is_public) and str(k.fingerprint) in [U.info[i]['subs'][0] for i in sec_rcpt] + [U.info[i]['fp'] for i in sec_rcpt]
+                if not ok:
+                    out.append(('selector-msg2', 'a private recipient is loaded but key(message) -> %s (%s)' % (k.fingerprint, 'public' if k.is_public else 'private')))
+        except Exception as e:   # noqa
+            out.append(('selector-msg2', 'a private recipient is loaded but key(message) -> %r' % (e,)))
+    for name, idx, issuer_fp in (('sig', 4, U.info[4]['subs'][0]), ('sig1', 1, U.info[1]['fp']), ('msg', 0, U.info[0]['subs'][0]), ('sigfp', 1, U.info[1]['fp'])):
         obj = (pgpy.PGPMessage if name == 'msg' else pgpy.PGPSignature).from_blob(_SIGS[name])
         try:
             with state.kr.key(obj) as k:
